@@ -433,14 +433,17 @@ fn run_case(work: &Path, ops: &[Op], sel: &VarSel, rng: &mut Rng) -> CaseOut {
     let ents = show_ents(&h.ents);
     let mut notes = vec![];
     let mut panics = vec![];
+    // a replay of a few hundred bytes that takes this long is allocating a garbage frame length
+    // (mis-framed log): the history itself is the failing input; observe it for `from = 0` only and
+    // skip its variants, which would only cost time
     let t_obs = std::time::Instant::now();
+    let _ = observe_real(&dir, 0, &idx);
+    let slow_replay = t_obs.elapsed().as_millis() > 100 && h.files.iter().map(|f| f.1.len()).sum::<usize>() < 20_000;
+    let top = if slow_replay { 0 } else { top };
     let final_obs = observe_real(&dir, top, &idx).unwrap_or_else(|e| {
         panics.push("intact".into());
         e
     });
-    // a replay of a few hundred bytes that takes this long is allocating a garbage frame length
-    // (mis-framed log): the history itself is the failing input, its variants would only cost time
-    let slow_replay = t_obs.elapsed().as_millis() > 100 * (top as u128 + 1) && h.files.iter().map(|f| f.1.len()).sum::<usize>() < 20_000;
     let real_hist = format!("ok {} {}", h.opobs, show_files(&h.files));
     let mut lines = vec![
         format!("hist fixed {} {}", ents, h.model_ops),
@@ -797,10 +800,10 @@ fn main() {
     }
     for (ci, w) in bounds.windows(2).enumerate() {
         let chunk = &cases[w[0]..w[1]];
-        // the verdict is decided once five failing inputs are on record; on a broken tree the
+        // the verdict is decided once a failing input is on record; on a broken tree the
         // remaining cases only cost time (mis-framed logs make `replay` allocate garbage lengths)
-        if rep.spec_violations.len() >= 5 {
-            rep.notes.push(format!("stopped after {} of {} cases: five failing inputs recorded", w[0], cases.len()));
+        if !rep.spec_violations.is_empty() {
+            rep.notes.push(format!("stopped after {} of {} cases: failing inputs recorded", w[0], cases.len()));
             break;
         }
         let seeds: Vec<u64> = chunk.iter().map(|_| rng.next_u64()).collect();
